@@ -462,7 +462,39 @@ pub fn run(ctx: &Ctx) -> Result<Ev, String> {
     let shards = 32usize;
     let per = (if ctx.thorough { 1_500_000 } else { 120_000 } / shards) as u32;
     let seed = ctx.seed;
-    let total = par::run_shards("C10", shards, |s| par::prop_shard("C10", seed, s, per, &raw_syms(), |c, ev| test(c, ev, &opts)));
+    let mut total = par::run_shards("C10", shards, |s| par::prop_shard("C10", seed, s, per, &raw_syms(), |c, ev| test(c, ev, &opts)));
+    // one name with two definitions of value-carrying kinds (label, .equ, .set): there is no unique
+    // definition a reference could resolve to, so the build fails — a reference never silently takes
+    // the value of the other one.  Both orders, the second spelling in another letter case.
+    {
+        let defs: [(&str, &str); 5] = [("label", "{}: nop"), ("data-label", ".dseg\n{}: .byte 1\n.cseg"), ("eeprom-label", ".eseg\n{}: .db 1\n.cseg"), ("equ", ".equ {} = 5"), ("set", ".set {} = 7")];
+        for (ka, ta) in defs.iter() {
+            for (kb, tb) in defs.iter() {
+                if *ka == "set" && *kb == "set" {
+                    continue; // re-assignment is what .set is for
+                }
+                for use_at in ["end", "between", "front"] {
+                    let a = ta.replace("{}", "clash_sym");
+                    let b = tb.replace("{}", "Clash_SYM");
+                    let u = ".dw clash_sym + 0";
+                    let src = match use_at {
+                        "end" => format!("nop\n{}\nnop\n{}\n{}\n", a, b, u),
+                        "between" => format!("nop\n{}\n{}\n{}\n", a, u, b),
+                        _ => format!("{}\nnop\n{}\nnop\n{}\n", if *ka == "set" || *kb == "set" { "nop" } else { u }, a, b),
+                    };
+                    total.eval();
+                    total.class("must-fail:one-name-two-definitions");
+                    total.nt(fp(&src));
+                    let chk = Check::MustFail { src: src.clone(), token: None };
+                    if let Err(why) = chk.eval() {
+                        let mut k = [*ka, *kb];
+                        k.sort();
+                        total.violation(Violation { sig: format!("c10:one-name-two-definitions:{}+{}:accepted", k[0], k[1]), what: format!("`{}`: {}", src.replace('\n', " | "), why), replay: chk.to_json() });
+                    }
+                }
+            }
+        }
+    }
     let inconsistent: u64 = total.classes.iter().filter(|(k, _)| k.starts_with("harness-inconsistent")).map(|(_, v)| *v).sum();
     if inconsistent * 50 > total.evaluations {
         let k = total.classes.keys().find(|k| k.starts_with("harness-inconsistent")).cloned().unwrap_or_default();
@@ -477,5 +509,5 @@ pub fn run(ctx: &Ctx) -> Result<Ev, String> {
 }
 
 pub fn rule() -> String {
-    "proptest: 2–9 symbols over code/data/EEPROM labels, .equ, .set (1–3 sequential assignments, some referring to the previous value) and .def aliases (.def / .undef / re-.def), 4–27 steps that define, use (rjmp, lds/sts, ldi low(), mov/ldi/add through an alias, .dw/.dd) or re-assign them in a generated order, every occurrence of a name in an independently generated letter case; variants with exactly one fault: definition deleted while a use remains, duplicated label (other case), alias used after .undef / never defined / before .def, .set name used before its first assignment. Oracles: reference model image; must-fail for variants; metamorphic alias→register replacement. Non-trivial = definition and use differ in case, or a forward reference, or a .set reassignment between two uses, or a must-fail variant; distinct = distinct program text".into()
+    "proptest: 2–9 symbols over code/data/EEPROM labels, .equ, .set (1–3 sequential assignments, some referring to the previous value) and .def aliases (.def / .undef / re-.def), 4–27 steps that define, use (rjmp, lds/sts, ldi low(), mov/ldi/add through an alias, .dw/.dd) or re-assign them in a generated order, every occurrence of a name in an independently generated letter case; variants with exactly one fault: definition deleted while a use remains, duplicated label (other case), alias used after .undef / never defined / before .def, .set name used before its first assignment; a deterministic leg gives one name two definitions of value-carrying kinds (label in any segment, .equ, .set; both orders, other letter case): must fail. Oracles: reference model image; must-fail for variants; metamorphic alias→register replacement. Non-trivial = definition and use differ in case, or a forward reference, or a .set reassignment between two uses, or a must-fail variant; distinct = distinct program text".into()
 }
